@@ -28,14 +28,30 @@ fn main() {
         "case" => {
             // case <ID> <hex>: run one case strictly in this process
             let id = &args[2];
-            let bytes = util::unhex(args.get(3).map(|s| s.as_str()).unwrap_or(""));
+            let hex_arg = args.get(3).map(|s| s.as_str()).unwrap_or("");
+            let bytes = if hex_arg == "-" { Vec::new() } else { util::unhex(hex_arg) };
+            let decoded_from_file: Option<serde_json::Value> = if bytes.is_empty() {
+                args.get(4)
+                    .filter(|p| !p.is_empty())
+                    .and_then(|p| std::fs::read_to_string(p).ok())
+                    .and_then(|t| serde_json::from_str::<serde_json::Value>(&t).ok())
+                    .and_then(|v| v.get("decoded").cloned())
+            } else {
+                None
+            };
             let prop = engine::find_property(id).expect("unknown property");
             shard::install_quiet_panic_hook();
             util::set_shard_tag(99);
             util::clock::init();
             prop.setup();
             let cfg = RunCfg { tier: Tier::Quick, want_decoded: true, strict: true };
-            let v = shard::run_guarded(&*prop, &bytes, &cfg);
+            let v = match decoded_from_file.as_ref().and_then(|d| {
+                let r = std::panic::catch_unwind(std::panic::AssertUnwindSafe(|| prop.run_decoded(d, &cfg)));
+                r.unwrap_or(None)
+            }) {
+                Some(v) => v,
+                None => shard::run_guarded(&*prop, &bytes, &cfg),
+            };
             match v {
                 Verdict::Pass(rep) => {
                     println!(
